@@ -105,6 +105,21 @@ class SmaTrendAlphaModel(AlphaModel):
         return w
 
 
+class TimedAlphaModel(AlphaModel):
+    """weights that change with time: [[from_second, {asset: weight}], ...]; before the first entry: no weights at all"""
+
+    def __init__(self, table):
+        self.table = [(int(t), dict((a, w) for a, w in ws)) for t, ws in table]
+
+    def __call__(self, dt):
+        now = int(dt.timestamp())
+        cur = {}
+        for t, ws in self.table:
+            if t <= now:
+                cur = ws
+        return dict(cur)
+
+
 class VolFilterAlphaModel(AlphaModel):
     """implementation-side only: long the low-volatility assets, short the rest"""
 
@@ -208,6 +223,8 @@ def run_session(c, shared_ds=None, reuse_universe=False):
         alpha = FixedSignalsAlphaModel(dict((k, v) for k, v in a[1]))
     elif a[0] == 'single':
         alpha = SingleSignalAlphaModel(universe, signal=a[1])
+    elif a[0] == 'timed':
+        alpha = TimedAlphaModel(a[1])
     elif a[0] == 'topn':
         alpha = TopNMomentumAlphaModel(signals, a[1], a[2], universe, dh)
     elif a[0] == 'smatrend':
@@ -310,6 +327,10 @@ def run_session(c, shared_ds=None, reuse_universe=False):
     return out, ds
 
 
+def digest_lite(o):
+    return [o.get('init'), o.get('equity'), o.get('fills'), o.get('allocs'), o.get('error')]
+
+
 def handler(c):
     if c.get('mode') == 'twice':
         # the same backtest twice in one process, the second time with the already-used data source
@@ -383,6 +404,42 @@ def handler(c):
             shutil.rmtree(d, ignore_errors=True)
         universe = mk_universe(c['cfg']['universe'])
         reused, _ = run_session(c, shared_ds=([mine], BacktestDataHandler(universe, data_sources=[mine])))
+        return {'first': fresh, 'second': reused}
+    if c.get('mode') == 'churn':
+        # data sources on ANOTHER market are built, asked the session's own questions and dropped; then a new source on the
+        # session's market is built (CPython tends to hand it the freed address) and serves the session
+        import gc
+        m, m2 = c['market'], c['market2']
+        fresh, _ = run_session(c)
+        universe = mk_universe(c['cfg']['universe'])
+        os.makedirs(TMPROOT, exist_ok=True)
+        d1 = tempfile.mkdtemp(prefix='sess_', dir=TMPROOT)
+        d2 = tempfile.mkdtemp(prefix='sess_', dir=TMPROOT)
+        reused = fresh
+        try:
+            write_csvs(d1, m['assets'])
+            write_csvs(d2, m2['assets'])
+            dead = set()
+            for _ in range(40):
+                other = CSVDailyBarDataSource(d2, Equity, adjust_prices=m.get('adjust', True))
+                for t, _k in c.get('event_times', []):
+                    for name in m2['assets']:
+                        try:
+                            other.get_bid(ts(t), 'EQ:' + name)
+                            other.get_ask(ts(t), 'EQ:' + name)
+                        except Exception:
+                            pass
+                dead.add(id(other))
+                del other
+                mine = CSVDailyBarDataSource(d1, Equity, adjust_prices=m.get('adjust', True))
+                if id(mine) in dead:
+                    # this object lives where a dropped source of the other market lived
+                    reused, _ = run_session(c, shared_ds=([mine], BacktestDataHandler(universe, data_sources=[mine])))
+                    break
+                del mine
+        finally:
+            shutil.rmtree(d1, ignore_errors=True)
+            shutil.rmtree(d2, ignore_errors=True)
         return {'first': fresh, 'second': reused}
     if c.get('mode') == 'default_after_other':
         c_exp = dict(c)
